@@ -45,3 +45,26 @@
   (forall ((k (_ BitVec 64))) (! (=> (and (bvsle #x0000000000000001 k) (bvslt k (nparts s c)))
       (= (select (str_arr s) (bvsub (partoff s c k) #x0000000000000001)) c))
     :pattern ((partoff s c k))))))
+; The documented matching rule of VerifyHostname / matchHostnames: one trailing dot is ignored on
+; pattern and host; both must then be non-empty, have the same number of dot-separated labels,
+; and every pattern label is "*" or equals the corresponding host label.
+;; spec hn_match (p string, h string) bool
+(define-fun hn_match ((p Str) (h Str)) Bool (and
+  (bvsge (str_len (trim1 p #x2e)) #x0000000000000001)
+  (bvsge (str_len (trim1 h #x2e)) #x0000000000000001)
+  (= (nparts (trim1 p #x2e) #x2e) (nparts (trim1 h #x2e) #x2e))
+  (forall ((k (_ BitVec 64))) (=> (and (bvsle #x0000000000000000 k) (bvslt k (nparts (trim1 p #x2e) #x2e)))
+      (or (= (part (trim1 p #x2e) #x2e k) (mkStr #x0000000000000001 (store zero8arr #x0000000000000000 #x2a)))
+          (= (part (trim1 p #x2e) #x2e k) (part (trim1 h #x2e) #x2e k)))))))
+; The ASCII lower-casing of a whole string (RFC 6125 6.4.1): same length, byte i is lc(s[i]).
+;; spec lower (s string) string
+(define-fun lower ((s Str)) Str (mkStr (str_len s) (lambda ((i (_ BitVec 64))) (ite (bvult i (str_len s)) (lc (select (str_arr s) i)) #x00))))
+; Names for the result of net.ParseIP(s): whether s is a textual IP address, and the length and
+; bytes of the parsed address. Uninterpreted (the textual syntax of IP addresses is not modelled);
+; they make the result of ParseIP a function of its argument that postconditions can refer to.
+;; spec ip_literal (s string) bool
+(declare-fun ip_literal (Str) Bool)
+;; spec ip_len (s string) int
+(declare-fun ip_len (Str) (_ BitVec 64))
+;; spec ip_at (s string, i int) uint8
+(declare-fun ip_at (Str (_ BitVec 64)) (_ BitVec 8))
